@@ -113,6 +113,7 @@ LayoutName == <<"oci-layout">>
 IndexName == <<"index.json">>
 DockerName == <<"manifest.json">>
 
+\* t handler type, n node (OCI), mt media type class of the descriptor, child, i Docker layer positions
 HRec(t, n, mt, child, i) == [t |-> t, n |-> n, mt |-> mt, child |-> child, i |-> i]
 
 (* ---------------------------- link list -------------------------------- *)
@@ -129,6 +130,7 @@ LinkLoop(s, t) == \E i \in 1..Len(Links(s, t)) : Links(s, t)[i] = t
 LinkList(s, t) == IF LinkCode THEN LinkListCode(s, t)
                   ELSE AllLinks(s, Links(s, t), Cardinality(DOMAIN s.links) + 1)
 InSeq(x, q) == \E i \in 1..Len(q) : q[i] = x
+Range(q) == {q[i] : i \in 1..Len(q)}
 
 (* ------------------------- handler effects ----------------------------- *)
 \* every effect maps [s (importer), t (target), ok, why] to the same shape
@@ -139,27 +141,30 @@ Fail(s, t, why) == [s |-> s, t |-> t, ok |-> FALSE, why |-> why]
 AddEntry(s, d, child) ==
   LET fn == BlobPath(d.n) IN
   IF fn \in s.done \/ Has(s.h, fn) THEN s
-  ELSE [s EXCEPT !.h = Put(@, fn, HRec("entry", d.n, d.t, child, 0))]
+  ELSE [s EXCEPT !.h = Put(@, fn, HRec("entry", d.n, d.t, child, {}))]
 \* config / layer of an image manifest
 AddBlob(s, n) ==
   LET fn == BlobPath(n) IN
   IF fn \in s.done \/ Has(s.h, fn) THEN s
-  ELSE [s EXCEPT !.h = Put(@, fn, HRec("blob", n, "", FALSE, 0))]
+  ELSE [s EXCEPT !.h = Put(@, fn, HRec("blob", n, "", FALSE, {}))]
 RECURSIVE AddKids(_, _, _)
 AddKids(s, kids, isIndex) ==
   IF kids = <<>> THEN s
   ELSE AddKids(IF isIndex THEN AddEntry(s, Head(kids), TRUE) ELSE AddBlob(s, Head(kids).n), Tail(kids), isIndex)
 
-\* imageImportOCIHandleManifest(push = true)
-HandleMan(s, t, n, child) ==
+\* imageImportOCIHandleManifest(push = true); c = content of the tar entry being read
+\* (manifest.New verifies the digest of the descriptor against the bytes)
+HandleMan(s, t, n, child, c) ==
+  IF c # n THEN Fail(s, t, "manifest digest mismatch") ELSE
   LET s1 == [s EXCEPT !.mans = @ \cup {n}]
       s2 == AddKids(s1, Node(n).kids, Node(n).k = "index")
   IN R([s2 EXCEPT !.fin = Append(@, [op |-> "push", n |-> n, child |-> child]), !.added = TRUE], t)
 
 \* imageImportBlob; drained = the tar reader was already consumed by io.ReadAll
-ImportBlob(s, t, n, drained) ==
+ImportBlob(s, t, n, drained, c) ==
   IF n \in t.blobs THEN R(s, t)                                  \* BlobHead succeeds
   ELSE IF drained /\ DrainBug /\ Node(n).a # "empty" THEN Fail(s, t, "blob put from a drained reader")
+  ELSE IF c # n THEN Fail(s, t, "blob digest mismatch")          \* the registry / layout verifies the digest
   ELSE R(s, [t EXCEPT !.blobs = @ \cup {n}])
 
 \* root selection in imageImportOCIHandleManifest(push = false)
@@ -185,42 +190,42 @@ HIndexEff(s, t) == LET s1 == [s EXCEPT !.fi = TRUE] IN IF s.fl THEN OciRoot(s1, 
 HDockerEff(s, t) == R([s EXCEPT !.dk = TRUE], t)
 
 \* closure registered by handleManifest: io.ReadAll first, then by media type of the descriptor
-HEntryEff(s, t, h) ==
-  CASE h.mt = "man" -> IF IsMan(h.n) THEN HandleMan(s, t, h.n, h.child) ELSE Fail(s, t, "not a manifest")
-    [] h.mt = "lay" -> ImportBlob(s, t, h.n, TRUE)
-    [] h.mt = "none" -> IF IsMan(h.n) THEN HandleMan(s, t, h.n, h.child) ELSE ImportBlob(s, t, h.n, TRUE)
-    [] OTHER -> ImportBlob(s, t, h.n, TRUE)        \* "unk": manifest.New rejects the media type
+HEntryEff(s, t, h, c) ==
+  CASE h.mt = "man" -> IF IsMan(h.n) THEN HandleMan(s, t, h.n, h.child, c) ELSE Fail(s, t, "not a manifest")
+    [] h.mt = "lay" -> ImportBlob(s, t, h.n, TRUE, c)
+    [] h.mt = "none" -> IF IsMan(h.n) THEN HandleMan(s, t, h.n, h.child, c) ELSE ImportBlob(s, t, h.n, TRUE, c)
+    [] OTHER -> ImportBlob(s, t, h.n, TRUE, c)     \* "unk": manifest.New rejects the media type
 
-HBlobEff(s, t, h) == ImportBlob(s, t, h.n, FALSE)
+HBlobEff(s, t, h, c) == ImportBlob(s, t, h.n, FALSE, c)
 
-\* Docker fall-back: blobs are named by what the file holds (sc.content[path])
-HDkConfigEff(s, t, x) == LET c == sc.content[x]
-                         IN R([s EXCEPT !.dkm.cfg = c], [t EXCEPT !.blobs = @ \cup {c}])
-HDkLayerEff(s, t, x, h) == LET c == sc.content[x]
-                           IN R([s EXCEPT !.dkm.layers[h.i] = c], [t EXCEPT !.blobs = @ \cup {c}])
+\* Docker fall-back: the digest is whatever the file holds (c), the descriptor goes into the manifest
+HDkConfigEff(s, t, c) == R([s EXCEPT !.dkm.cfg = c], [t EXCEPT !.blobs = @ \cup {c}])
+HDkLayerEff(s, t, h, c) ==
+  R([s EXCEPT !.dkm.layers = [i \in DOMAIN @ |-> IF i \in h.i THEN c ELSE @[i]]], [t EXCEPT !.blobs = @ \cup {c}])
 
-Run(s, t, x) ==
+\* the handler registered under name x runs on the tar entry with content c
+Run(s, t, x, c) ==
   LET h == s.h[x] IN
   CASE h.t = "layout" -> HLayoutEff(s, t)
     [] h.t = "index" -> HIndexEff(s, t)
     [] h.t = "docker" -> HDockerEff(s, t)
-    [] h.t = "entry" -> HEntryEff(s, t, h)
-    [] h.t = "blob" -> HBlobEff(s, t, h)
-    [] h.t = "dkcfg" -> HDkConfigEff(s, t, x)
-    [] h.t = "dklayer" -> HDkLayerEff(s, t, x, h)
+    [] h.t = "entry" -> HEntryEff(s, t, h, c)
+    [] h.t = "blob" -> HBlobEff(s, t, h, c)
+    [] h.t = "dkcfg" -> HDkConfigEff(s, t, c)
+    [] h.t = "dklayer" -> HDkLayerEff(s, t, h, c)
 
 \* the loop over linkList(name)+name inside tarReadAll
-RECURSIVE Walk(_, _, _, _)
-Walk(s, t, list, used) ==
+RECURSIVE Walk(_, _, _, _, _)
+Walk(s, t, list, used, c) ==
   IF list = <<>> THEN [s |-> s, t |-> t, r |-> "cont", why |-> ""]
   ELSE LET x == Head(list) IN
-       IF ~Has(s.h, x) THEN Walk(s, t, Tail(list), used)
+       IF ~Has(s.h, x) THEN Walk(s, t, Tail(list), used, c)
        ELSE IF used THEN [s |-> [s EXCEPT !.added = TRUE], t |-> t, r |-> "cont", why |-> ""]
-       ELSE LET res == Run(s, t, x) IN
+       ELSE LET res == Run(s, t, x, c) IN
             IF ~res.ok THEN [s |-> res.s, t |-> res.t, r |-> "fail", why |-> res.why]
             ELSE LET s2 == [res.s EXCEPT !.h = Del(@, x), !.done = @ \cup {x}]
                  IN IF DOMAIN s2.h = {} THEN [s |-> s2, t |-> res.t, r |-> "ret", why |-> ""]
-                    ELSE Walk(s2, res.t, Tail(list), TRUE)
+                    ELSE Walk(s2, res.t, Tail(list), TRUE, c)
 
 RECURSIVE FirstHandled(_, _)
 FirstHandled(s, list) == IF list = <<>> THEN "none"
@@ -240,9 +245,9 @@ Init == /\ sc \in Scenarios
 
 \* ImageImport up to the first seek
 Begin == /\ phase = "init"
-         /\ imp' = [imp EXCEPT !.h = Put(Put(Put(Empty, LayoutName, HRec("layout", "", "", FALSE, 0)),
-                                               IndexName, HRec("index", "", "", FALSE, 0)),
-                                           DockerName, HRec("docker", "", "", FALSE, 0))]
+         /\ imp' = [imp EXCEPT !.h = Put(Put(Put(Empty, LayoutName, HRec("layout", "", "", FALSE, {})),
+                                               IndexName, HRec("index", "", "", FALSE, {})),
+                                           DockerName, HRec("docker", "", "", FALSE, {}))]
          /\ phase' = "scan1" /\ pass' = 1 /\ pos' = 1
          /\ UNCHANGED <<sc, arch, rest, tgt, err>>
 
@@ -275,7 +280,7 @@ ScanFile(ht) == \E e \in sc.entries :
      IF LinkLoop(imp, name)
      THEN ht = "none" /\ phase' = "failed" /\ err' = "symlink loop" /\ UNCHANGED <<imp, pos, pass, tgt>>
      ELSE LET list == LinkList(imp, name) \o <<name>>
-              w == Walk(imp, tgt, list, FALSE)
+              w == Walk(imp, tgt, list, FALSE, e.c)
           IN /\ FirstHandled(imp, list) = ht
              /\ imp' = w.s /\ tgt' = w.t
              /\ CASE w.r = "fail" -> phase' = "failed" /\ err' = w.why /\ UNCHANGED <<pos, pass>>
@@ -299,38 +304,44 @@ EndPassRescan == /\ Scanning /\ ~MoreEntries /\ imp.added
                  /\ pos' = 1 /\ pass' = pass + 1
                  /\ UNCHANGED <<sc, arch, rest, phase, tgt, err>>
 
-\* imageImportDockerAddLayerHandlers
+\* imageImportDockerAddLayerHandlers: one handler per (cleaned) path.  The code assigns
+\* trd.handlers[path] once per position, so a path listed twice keeps only its last position
+\* (DupPathBug); the repaired design lets the handler fill every position of its path.
 RECURSIVE AddDkLayers(_, _, _)
 AddDkLayers(h, layers, i) ==
   IF i > Len(layers) THEN h
-  ELSE LET fn == Clean(layers[i]) IN
-       AddDkLayers(IF Has(h, fn) /\ ~DupPathBug THEN h      \* repaired: keep every index of a repeated path
-                   ELSE Put(h, fn, HRec("dklayer", "", "", FALSE, i)), layers, i + 1)
+  ELSE LET fn == Clean(layers[i])
+           prev == IF Has(h, fn) /\ h[fn].t = "dklayer" /\ ~DupPathBug THEN h[fn].i ELSE {}
+       IN AddDkLayers(Put(h, fn, HRec("dklayer", "", "", FALSE, prev \cup {i})), layers, i + 1)
+\* index of the manifest.json entry to import: the first whose RepoTags hold the requested name, else the first
 DkIndex == IF sc.sel.by = "name"
            THEN LET S == {i \in 1..Len(sc.docker) : InSeq(sc.sel.v, sc.docker[i].tags)}
                 IN IF S = {} THEN 0 ELSE CHOOSE i \in S : \A j \in S : i <= j
            ELSE 1
-\* the layer positions a path fills: the code keeps one handler per path, so a path listed twice fills
-\* only its last position; the repaired design fills all of them
-DkFill(layers, fn, i) == IF DupPathBug THEN {i} ELSE {j \in 1..Len(layers) : Clean(layers[j]) = fn}
 
 \* nothing added during a whole pass: errs.ErrNotFound; ImageImport falls back to manifest.json if it was seen
 EndPassNotFound ==
   /\ Scanning /\ ~MoreEntries /\ ~imp.added
-  /\ IF phase = "scan1" /\ imp.dk /\ Len(sc.docker) > 0 /\ DkIndex > 0
-     THEN LET d == sc.docker[DkIndex]
-              h0 == Del(Del(imp.h, LayoutName), IndexName)
-              h1 == Put(h0, Clean(d.cfg), HRec("dkcfg", "", "", FALSE, 0))
-              h2 == AddDkLayers(h1, d.layers, 1)
-          IN /\ imp' = [imp EXCEPT !.h = h2, !.added = FALSE,
-                                   !.dkm = [cfg |-> "", layers |-> [i \in 1..Len(d.layers) |-> ""]]]
-             /\ phase' = "scan2" /\ pos' = 1 /\ pass' = pass + 1
-             /\ UNCHANGED err
+  /\ IF phase = "scan1" /\ imp.dk /\ Len(sc.docker) > 0
+     THEN LET h0 == Del(Del(imp.h, LayoutName), IndexName) IN
+          IF DkIndex = 0
+          THEN \* requested name not in any RepoTags: no handler is added; tarReadAll returns at once when no
+               \* handler is left and a zero manifest is pushed (outside the statement, kept for fidelity)
+               /\ imp' = [imp EXCEPT !.h = h0]
+               /\ IF DOMAIN h0 = {} THEN phase' = "dkpush" /\ UNCHANGED <<pos, pass, err>>
+                  ELSE phase' = "scan2" /\ pos' = 1 /\ pass' = pass + 1 /\ UNCHANGED err
+          ELSE LET d == sc.docker[DkIndex]
+                   h1 == Put(h0, Clean(d.cfg), HRec("dkcfg", "", "", FALSE, {}))
+                   h2 == AddDkLayers(h1, d.layers, 1)
+               IN /\ imp' = [imp EXCEPT !.h = h2, !.added = FALSE,
+                                        !.dkm = [cfg |-> "", layers |-> [i \in 1..Len(d.layers) |-> ""]]]
+                  /\ phase' = "scan2" /\ pos' = 1 /\ pass' = pass + 1
+                  /\ UNCHANGED err
      ELSE /\ phase' = "failed"
           /\ err' = (IF phase = "scan1" THEN "unable to read all files from tar" ELSE "failed to import layers from docker tar")
           /\ UNCHANGED <<imp, pos, pass>>
   /\ UNCHANGED <<sc, arch, rest, tgt>>
-Fallback == EndPassNotFound /\ phase' = "scan2"
+Fallback == EndPassNotFound /\ phase' \in {"scan2", "dkpush"}
 NotFound == EndPassNotFound /\ phase' = "failed"
 
 \* imageImportOCIPushManifests: finish steps in reverse order
@@ -352,17 +363,10 @@ FinishDone == /\ phase = "finish" /\ imp.fin = <<>>
               /\ phase' = "done"
               /\ UNCHANGED <<sc, arch, rest, pos, pass, imp, tgt, err>>
 
-\* the handler of the Docker layer at position i also stands for the other positions of the same path
-\* in the repaired design; resolved here when the manifest is assembled
+\* ImageImport after the second tarReadAll: manifest.New(WithOrig(trd.dockerManifest)) + ManifestPut
 DockerPush ==
   /\ phase = "dkpush"
-  /\ LET d == sc.docker[DkIndex]
-         L == [i \in 1..Len(d.layers) |->
-                 IF imp.dkm.layers[i] # "" THEN imp.dkm.layers[i]
-                 ELSE IF ~DupPathBug /\ \E j \in 1..Len(d.layers) : Clean(d.layers[j]) = Clean(d.layers[i]) /\ imp.dkm.layers[j] # ""
-                      THEN imp.dkm.layers[CHOOSE j \in 1..Len(d.layers) : Clean(d.layers[j]) = Clean(d.layers[i]) /\ imp.dkm.layers[j] # ""]
-                      ELSE ""]
-     IN tgt' = [tgt EXCEPT !.dk = [cfg |-> imp.dkm.cfg, layers |-> L], !.tag = "dkman"]
+  /\ tgt' = [tgt EXCEPT !.dk = imp.dkm, !.tag = "dkman"]
   /\ phase' = "done"
   /\ UNCHANGED <<sc, arch, rest, pos, pass, imp, err>>
 
